@@ -235,3 +235,108 @@ func TestVerifC15(t *testing.T) {
 		}
 	}
 }
+
+// ---------------------------------------------------------------------------
+// burst: sliding-window bound after a stall. The limiter may let b probes go at once (its
+// fixed allowance); it must not let more go because the scan was idle for a while: the
+// first `workers` probes block for longer than workers*W/N, then every target answers at once.
+// All windows of k consecutive probe starts (timestamps taken at probe entry, i.e. after the
+// limiter released the probe) must span at least (k-1-b)*W/N - eps.
+
+type c15burstCase struct {
+	Rate    string `json:"rate"`
+	Workers int    `json:"workers"`
+	N       int    `json:"targets"`
+	StallMs int    `json:"first_probes_block_for_ms"`
+	Seed    uint64 `json:"seed"`
+}
+
+func c15burst(run *vlab.Run, dir string, c c15burstCase) {
+	ctx, cancel := context.WithCancel(context.Background())
+	defer cancel()
+	clock := &rigClock{}
+	file, ids, _ := rigTargetFile(dir, c.N, c.Seed, 0)
+	opts := &genericScanCmdOpts{ipFile: file, workers: c.Workers, rawRateLimit: c.Rate}
+	if err := opts.parseRawOptions(); err != nil {
+		run.Violation("rate-flag-rejected", fmt.Sprintf("--rate %q rejected: %v", c.Rate, err), c)
+		return
+	}
+	refN, refW, _ := oracle.RefRate(c.Rate)
+	sc := newRecScanner(c.Seed, 0, 0, 0, clock)
+	release := time.Now().Add(time.Duration(c.StallMs) * time.Millisecond)
+	sc.onStart = func(k int, _ context.Context) {
+		if k <= c.Workers {
+			time.Sleep(time.Until(release))
+		}
+	}
+	engine := opts.newScanEngine(ctx, sc)
+	go func() {
+		for range engine.Results() {
+		}
+	}()
+	health := startHealth()
+	done, errc := engine.Start(ctx, &scan.Range{})
+	for range errc {
+	}
+	<-done
+	stall := health.end()
+	run.Eval(1)
+	sc.mu.Lock()
+	starts := append([]time.Time(nil), sc.startT...)
+	sc.mu.Unlock()
+	if len(starts) != len(ids) {
+		run.Inconclusive(fmt.Sprintf("probe count %d != %d", len(starts), len(ids)))
+		return
+	}
+	sort.Slice(starts, func(a, b int) bool { return starts[a].Before(starts[b]) })
+	if stall > 25*time.Millisecond {
+		run.Inconclusive(fmt.Sprintf("monitor stalled %v during a timing run: %+v", stall, c))
+		return
+	}
+	const burst = 10
+	per := refW / time.Duration(refN)
+	eps := 15*time.Millisecond + 2*stall
+	worstK, worstSpan, worstNeed := 0, time.Duration(0), time.Duration(0)
+	for i := 0; i < len(starts); i++ {
+		for j := i + burst + 2; j < len(starts); j++ {
+			k := j - i + 1
+			need := time.Duration(k-1-burst)*per - eps
+			span := starts[j].Sub(starts[i])
+			if span < need && need-span > worstNeed-worstSpan {
+				worstK, worstSpan, worstNeed = k, span, need
+			}
+		}
+	}
+	if worstK > 0 {
+		run.Violation("burst-after-stall", fmt.Sprintf("--rate %s, %d workers: %d consecutive probes started within %v; (k-1-%d)*W/N - eps = %v is the least the limit allows (the scan had been idle for %d ms before): %+v", c.Rate, c.Workers, worstK, worstSpan, burst, worstNeed, c.StallMs, c), c)
+	}
+	run.Count("burst_runs", 1)
+	run.Count("burst_windows_checked", int64(len(starts)*(len(starts)-burst-1)/2))
+	run.Count("probes_checked", int64(len(starts)))
+	if run.WantSample() {
+		run.Sample(map[string]interface{}{"case": c, "monitor_stall_us": stall.Microseconds(), "first_start_to_last_ms": starts[len(starts)-1].Sub(starts[0]).Milliseconds()})
+	}
+}
+
+func TestVerifC15Burst(t *testing.T) {
+	run := vlab.Begin(t, "C15", "burst")
+	defer run.End()
+	dir := t.TempDir()
+	rng := run.Rand("burst")
+	var cases []c15burstCase
+	for i := 0; i < run.Pick(16, 96); i++ {
+		w := []int{30, 50, 100, 200}[i%4]
+		rate := []string{"500/s", "1000/s", "100/200ms", "250/500ms"}[(i/4)%4]
+		n, wd, _ := oracle.RefRate(rate)
+		per := wd / time.Duration(n)
+		cases = append(cases, c15burstCase{Rate: rate, Workers: w, N: w*2 + rng.Intn(w), StallMs: int((time.Duration(2*w)*per)/time.Millisecond) + 100, Seed: rng.Uint64()})
+	}
+	for i, c := range cases {
+		if !run.Mine(i) {
+			continue
+		}
+		run.Case(fmt.Sprintf("burst%03d", i), c)
+		c15burst(run, dir, c)
+		run.Distinct(fmt.Sprintf("%+v", c))
+	}
+}
